@@ -157,14 +157,85 @@ def annotate_function(src: str, qual: str):
     return new
 
 
-MODE = {"rename": None, "noop": None, "annotate": None}
+def _simple_func(e) -> bool:
+    while isinstance(e, ast.Attribute):
+        e = e.value
+    return isinstance(e, ast.Name)
+
+
+def _offsets(src: str):
+    offs = [0]
+    for line in src.split("\n"):
+        offs.append(offs[-1] + len(line.encode("utf-8")) + 1)
+    return offs
+
+
+def hoist_function(src: str, qual: str):
+    """Extract-local refactoring: `return E` becomes `_hN = E; return _hN`, and the first
+    positional argument of the outermost call of a simple statement is bound to a fresh
+    local first (the callee expression is a plain attribute chain, so evaluation order of
+    anything with an effect is unchanged)."""
+    tree = ast.parse(src)
+    node = _locate(tree, qual)
+    if node is None:
+        return None
+    bsrc = src.encode("utf-8")
+    offs = _offsets(src)
+
+    def span(n):
+        return offs[n.lineno - 1] + n.col_offset, offs[n.end_lineno - 1] + n.end_col_offset
+
+    nested = set()
+    for n in ast.walk(node):
+        if isinstance(n, (ast.FunctionDef, ast.Lambda, ast.ClassDef)) and n is not node:
+            for x in ast.walk(n):
+                nested.add(id(x))
+    edits = []  # (stmt, expr)
+    k = 0
+    for st in ast.walk(node):
+        if id(st) in nested or st is node:
+            continue
+        target = None
+        if isinstance(st, ast.Return) and st.value is not None and not isinstance(st.value, (ast.Name, ast.Constant)):
+            target = st.value
+        elif isinstance(st, (ast.Assign, ast.AnnAssign, ast.Expr)) and isinstance(getattr(st, "value", None), ast.Call):
+            c = st.value
+            if _simple_func(c.func) and c.args and not isinstance(c.args[0], (ast.Name, ast.Constant, ast.Starred, ast.GeneratorExp)):
+                target = c.args[0]
+        if target is None:
+            continue
+        if any(isinstance(x, (ast.Yield, ast.YieldFrom, ast.Await, ast.NamedExpr)) for x in ast.walk(target)):
+            continue
+        edits.append((st, target))
+    if not edits:
+        return None
+    out = bsrc
+    for st, target in sorted(edits, key=lambda e: span(e[0])[0], reverse=True):
+        k += 1
+        name = f"_h{k}".encode()
+        a, b = span(target)
+        sa = offs[st.lineno - 1]
+        indent = b" " * st.col_offset
+        expr = out[a:b]
+        if b"\n" in expr:
+            expr = b"(" + expr + b")"
+        out = out[:sa] + indent + name + b" = " + expr + b"\n" + out[sa:a] + name + out[b:]
+    new = out.decode("utf-8")
+    try:
+        compile(new, "x", "exec")
+    except SyntaxError:
+        return None
+    return new
+
+
+MODE = {"rename": None, "noop": None, "annotate": None, "hoist": None}
 
 
 def job(args):
     pid, rel, qual, mode = args
     root = repo_root()
     src = open(os.path.join(root, rel), encoding="utf-8").read()
-    new = {"rename": rename_function, "noop": noop_function, "annotate": annotate_function}[mode](src, qual)
+    new = {"rename": rename_function, "noop": noop_function, "annotate": annotate_function, "hoist": hoist_function}[mode](src, qual)
     if new is None:
         return (pid, qual + "/" + mode, "skipped", "")
     P = Program(overlay={rel: new})
@@ -186,7 +257,7 @@ def main():
     index = {fi.qualname: fi for fi in P.all_functions()}
     jobs = []
     allf = "--all" in sys.argv
-    modes = [m for m in ("rename", "noop", "annotate") if "--" + m in sys.argv] or ["rename"]
+    modes = [m for m in ("rename", "noop", "annotate", "hoist") if "--" + m in sys.argv] or ["rename"]
     pids = [a for a in sys.argv[1:] if not a.startswith("--")] or available()
     for pid in pids:
         mod = importlib.import_module(f"vstatic.checks.{pid}")
